@@ -112,6 +112,7 @@ type Solver struct {
 	byBackend map[string]int
 	totalS   float64
 	queries  int
+	noBatch  bool
 }
 
 func newSolver(outDir string, quickT, longT int) *Solver {
